@@ -181,7 +181,7 @@ def asg_structural_contracts():
                     if not pm or pm.group(1) or 'where' in sig:
                         continue          # generic constructors (ToString / Into) are outside the dialect
                     params = [x.strip() for x in re.split(r',(?![^<(]*[>)])', pm.group(2)) if x.strip()]
-                    names = [x.split(':')[0].strip() for x in params]
+                    names = [re.sub(r'^mut\s+', '', x.split(':')[0].strip()) for x in params]      # (`mut x: T` binds x all the same)
                     ens = ['r.%s == %s' % (n, n) for n in names if n in fs]
                     if ens and len(ens) == len(names):
                         out[q] = dict(ret='r', props=['C06', 'C08', 'C09'], spec='ensures ' + ', '.join(ens) + ',                     //@C06:constructor-keeps-fields')
@@ -459,9 +459,14 @@ pub assume_specification<T: Clone, EE: Clone> [<Result<T, EE> as Clone>::clone] 
         spec='ensures grows(*old(context), *final(context)), r@.len() == expression_list.sp_exprs().len(),     //@C06:arguments-keep-count')
     zov['indexed_identifier_to_asg_type'].update(ret='r', props=['C06', 'C03', 'C07'], loops={1: ITER_NB('oq3_it1', '\n    oq3_v1@.len() + oq3_it1.rest().len() == indexed_identifier.sp_index_operators().len(),')},
         spec='ensures grows(*old(context), *final(context)), r.0.indexes@.len() == indexed_identifier.sp_index_operators().len(),     //@C06:indexes-keep-count')
-    zov['block_expr_to_asg_stmt_list'].update(ret='r', props=['C06', 'C03', 'C07'], loops={1: ITER('oq3_it1', '\n    !context.global(), oq3_v1@.len() + oq3_it1.rest().len() <= block.sp_statements().len(),')},
-        spec=NONGLOBAL + 'ensures grows(*old(context), *final(context)), r@.len() <= block.sp_statements().len(),')
-    zov['block_expr_to_asg_type'].update(spec=NONGLOBAL + 'ensures grows(*old(context), *final(context)),')
+    DECLS = 'forall|i: int| 0 <= i < %s.sp_statements().len() ==> decl_bound(*final(context), #[trigger] %s.sp_statements()[i]),     //@C07:declarations-bind-in-the-scope-of-their-block'
+    zov['block_expr_to_asg_stmt_list'].update(ret='r', props=['C06', 'C03', 'C07'], loops={1: ITER('oq3_it1', '''
+    !context.global(), oq3_v1@.len() + oq3_it1.rest().len() <= block.sp_statements().len(),
+    oq3_it1.rest().len() <= block.sp_statements().len(),
+    oq3_it1.rest() =~= block.sp_statements().skip(block.sp_statements().len() - oq3_it1.rest().len()),
+    forall|i: int| 0 <= i < block.sp_statements().len() - oq3_it1.rest().len() ==> decl_bound(*context, #[trigger] block.sp_statements()[i]),''')},
+        spec=NONGLOBAL + 'ensures grows(*old(context), *final(context)), r@.len() <= block.sp_statements().len(),\n    ' + DECLS % ('block', 'block'))
+    zov['block_expr_to_asg_type'].update(spec=NONGLOBAL + 'ensures grows(*old(context), *final(context)),\n    ' + DECLS % ('block_synast', 'block_synast'))
     zov['block_or_stmt_to_asg_type'].update(spec=NONGLOBAL + 'ensures grows(*old(context), *final(context)),')
     zov['bind_parameter_list'].update(ret='r', props=['C09', 'C07', 'C03'], loops={1: ITER('oq3_it1', '''
     oq3_v1@.len() + oq3_it1.rest().len() == param_list.sp_params().len(),
@@ -489,7 +494,8 @@ ensures grows(*old(context), *final(context)),
     // unsupported statement kinds are reported, not dropped silently
     unsupported_stmt(stmt) ==> final(context).errs() == old(context).errs().push(SemanticErrorKind::NotImplementedError),     //@C03:unsupported-statement-reported
     // a declaration that bound nothing (a redeclaration) is marked as such in the graph, and only then
-    (r is Some && declared_symbol(r->Some_0) is Some) ==> ((final(context).scopes() == old(context).scopes()) <==> declared_symbol(r->Some_0)->Some_0 is Err),     //@C07:redeclaration-marked-in-the-graph''')
+    (r is Some && declared_symbol(r->Some_0) is Some) ==> ((final(context).scopes() == old(context).scopes()) <==> declared_symbol(r->Some_0)->Some_0 is Err),     //@C07:redeclaration-marked-in-the-graph
+    decl_bound(*final(context), stmt),                                                                //@C07:declarations-bind-in-the-scope-of-their-block''')
     zov['expr_stmt_to_asg_stmt'].update(ret='r', props=['C03', 'C06', 'C07', 'C13'], loops={1: ITER_NB('oq3_it1', '''
     oq3_v1@.len() + oq3_it1.rest().len() == mod_gate_call.sp_modifiers().len(),
     oq3_it1.rest() =~= mod_gate_call.sp_modifiers().skip(oq3_v1@.len() as int),
@@ -674,6 +680,7 @@ ensures
     // last symbol-table event of the statement (the initializer cannot see the new name)
     final(context).trace().len() > 0 && final(context).trace().last() is Bind,                                  //@C07:initializer-analysed-before-binding
     r is DeclareClassical,
+    type_decl.sp_name() is Some ==> final(context).in_current_scope(type_decl.sp_name()->Some_0.sp_string()),      //@C07:declarations-bind-in-the-scope-of-their-block
     // a redeclaration (nothing was bound) is marked as such in the graph: the declared symbol is Err exactly then
     (final(context).scopes() == old(context).scopes()) <==> r->DeclareClassical_0.name is Err,                  //@C07:redeclaration-marked-in-the-graph
     // declaration rule: the stored value has the declared type up to const, or is an explicit cast
@@ -689,7 +696,14 @@ ensures
     assignment_stmt.sp_identifier() is Some ==> r->Some_0 is Assignment && (exists|mid: Context, td: Seq<SemanticErrorKind>|
         assign_post(*old(context), mid, *final(context), assignment_stmt.sp_identifier()->Some_0.sp_string(), td,
                     r->Some_0->Assignment_0.lvalue, r->Some_0->Assignment_0.rvalue)),                                     //@C08,C13:assignment-rule
-''', ghost=[('let (symbol_id, symbol_type) = context.lookup_symbol(name_str.as_str(), name).as_tuple();', 'before', 'let ghost mid = *context;'),
+''', ghost=[
+            # C07 (indexed target): the target is resolved -- and reported if undefined -- once, by indexed_identifier_to_asg_type; between
+            # it and the analysis of the right-hand side only TooManyIndexes may be reported, after it nothing
+            ('indexed_identifier_to_asg_type(&indexed_identifier_ast, context);', 'after', 'let ghost tr_l = context.trace(); let ghost er_l = context.errs();'),
+            ('    let expr = expr_to_asg_texpr(assignment_stmt.rhs(), context).unwrap();', 'before', 'proof { assert(context.trace() == tr_l && (context.errs() == er_l || context.errs() == er_l.push(SemanticErrorKind::TooManyIndexes))); }     //@C07,C13:indexed-target-resolved-once'),
+            ('    let expr = expr_to_asg_texpr(assignment_stmt.rhs(), context).unwrap();', 'after', 'let ghost tr_r = context.trace(); let ghost er_r = context.errs();'),
+            ('    let lvalue = asg::LValue::IndexedIdentifier(indexed_identifier);', 'after', 'proof { assert(context.trace() == tr_r && context.errs() == er_r); }     //@C07,C13:indexed-target-resolved-once'),
+            ('let (symbol_id, symbol_type) = context.lookup_symbol(name_str.as_str(), name).as_tuple();', 'before', 'let ghost mid = *context;'),
             ('let (symbol_id, symbol_type) = context.lookup_symbol(name_str.as_str(), name).as_tuple();', 'after', 'let ghost e1 = context.errs();'),
             ('        let expr_type = expr.get_type();', 'before', 'let ghost ex0 = expr;'),
             ('let stmt_asg = Some(asg::Assignment::new(lvalue, expr).to_stmt());', 'before', '''proof {
